@@ -32,6 +32,9 @@ type TripState struct {
 	Assigned bool
 	Train    string
 	Updates  []Update
+	// VehTS, when set on an assigned trip, adds a vehicle position entity for the train with this report time (a held train
+	// keeps reporting the same time while its predictions change).
+	VehTS *uint64
 }
 
 // Feed is one message of a history.
@@ -113,6 +116,13 @@ func (f *Feed) Message() *gtfsrt.FeedMessage {
 			tu.StopTimeUpdate = append(tu.StopTimeUpdate, su)
 		}
 		m.Entity = append(m.Entity, &gtfsrt.FeedEntity{Id: rgen.S(fmt.Sprintf("e%d", i)), TripUpdate: tu})
+		if t.Assigned && t.VehTS != nil {
+			vp := &gtfsrt.VehiclePosition{Trip: proto.Clone(d).(*gtfsrt.TripDescriptor), Timestamp: rgen.U64(*t.VehTS)}
+			if len(t.Updates) > 0 {
+				vp.StopId = rgen.S(t.Updates[0].Stop)
+			}
+			m.Entity = append(m.Entity, &gtfsrt.FeedEntity{Id: rgen.S(fmt.Sprintf("v%d", i)), Vehicle: vp})
+		}
 	}
 	return m
 }
@@ -160,6 +170,8 @@ type tripPlan struct {
 	routeStops             []string
 	pos                    int
 	assignedFrom           int // feed index from which the trip is assigned
+	reportsPosition        bool
+	vehTS                  uint64
 }
 
 // Gen draws a history.
@@ -196,7 +208,7 @@ func Gen(r *core.Rand, o Opts) *History {
 			continue
 		}
 		usedKey[key] = true
-		p := &tripPlan{id: fmt.Sprintf("%06d%s", origin, suf), date: date, route: "A", train: fmt.Sprintf("TRAIN %d", len(plans)), south: r.Bool()}
+		p := &tripPlan{id: fmt.Sprintf("%06d%s", origin, suf), date: date, route: "A", train: fmt.Sprintf("TRAIN %d", len(plans)), south: r.Bool(), reportsPosition: r.Bool()}
 		n := 2 + r.Intn(5)
 		perm := r.Perm(len(Stops))
 		for i := 0; i < n && i < len(perm); i++ {
@@ -283,7 +295,15 @@ func Gen(r *core.Rand, o Opts) *History {
 			if assigned && r.Chance(1, 6) {
 				assigned = false // an update that lacks the vehicle
 			}
-			f.Trips = append(f.Trips, TripState{ID: p.id, Date: p.date, Route: p.route, South: p.south, Assigned: assigned, Train: p.train, Updates: ups})
+			ts := TripState{ID: p.id, Date: p.date, Route: p.route, South: p.south, Assigned: assigned, Train: p.train, Updates: ups}
+			if p.reportsPosition {
+				if p.vehTS == 0 || r.Bool() {
+					p.vehTS = t - uint64(r.Intn(30)) // a new report; otherwise the train is held and repeats its last report time
+				}
+				v := p.vehTS
+				ts.VehTS = &v
+			}
+			f.Trips = append(f.Trips, ts)
 		}
 		h.Feeds = append(h.Feeds, f)
 	}
